@@ -1,6 +1,6 @@
 /-
-C31: the inductive invariant of guarded executions (a direct deactivation only while no turn is in
-progress, no turn starting meanwhile, one at a time) and its preservation by every step.
+C31: the inductive invariant of ALL executions (the manager's direct deactivation owns the grain's
+dispatch turn) and its preservation by every step.
 -/
 import GoaktVerif.Lemmas.C31
 
@@ -17,6 +17,8 @@ def lateDirect (c : Cfg) : Bool :=
 structure GInv (c : Cfg) : Prop where
   d1 : ∀ i, (c.threads i).direct = true ↔ c.dea = some i
   ex : c.w ≠ .idle → c.dea = none
+  t1 : c.dea ≠ none → c.sched = .processing
+  t2 : c.w ≠ .idle → c.sched = .processing
   recvBy : c.mon.recvBy = (match c.w with | .rcv _ => some 0 | _ => none)
   postBy : c.mon.postBy = (match c.w with
     | .dea .deaE _ _ => [0]
@@ -42,16 +44,20 @@ theorem no_direct_of_dea_none (c : Cfg) (d1 : ∀ i, (c.threads i).direct = true
   have := (d1 i).1 (by simp [h, GT.direct])
   simp [hd] at this
 
-theorem ginv_w (c : Cfg) (hB : Base c) (hG : GInv c) (hg : okStep c 0 = true) : GInv (wStep c) := by
-  obtain ⟨d1, ex, recvBy, postBy, k, kb1, kb2, early0, ok2, ok3, ok4⟩ := hG
+theorem ginv_w (c : Cfg) (hB : Base c) (hG : GInv c) : GInv (wStep c) := by
+  obtain ⟨d1, ex, t1, t2, recvBy, postBy, k, kb1, kb2, early0, ok2, ok3, ok4⟩ := hG
   have hq := hB.quiet
   unfold wStep
   split
   · rename_i hw
-    simp only [okStep, hw] at hg
     split
-    · g_solve
-    · exact ⟨d1, ex, recvBy, postBy, k, kb1, kb2, early0, ok2, ok3, ok4⟩
+    · rename_i hs
+      have hg : c.dea = none := by
+        cases hd : c.dea with
+        | none => rfl
+        | some j => have := t1 (by simp [hd]); simp [hs] at this
+      g_solve
+    · exact ⟨d1, ex, t1, t2, recvBy, postBy, k, kb1, kb2, early0, ok2, ok3, ok4⟩
   · g_solve
   · rename_i b hw
     have hd := ex (by simp [hw])
@@ -77,7 +83,7 @@ theorem ginv_w (c : Cfg) (hB : Base c) (hG : GInv c) (hg : okStep c 0 = true) : 
 /-- frame: re-pointing a thread that is not inside the direct deactivation to a program counter outside it -/
 theorem ginv_setT (c : Cfg) (i : Nat) (pc : GT) (hG : GInv c)
     (h1 : (c.threads i).direct = false) (h2 : pc.direct = false) : GInv (setT c i pc) := by
-  obtain ⟨d1, ex, recvBy, postBy, k, kb1, kb2, early0, ok2, ok3, ok4⟩ := hG
+  obtain ⟨d1, ex, t1, t2, recvBy, postBy, k, kb1, kb2, early0, ok2, ok3, ok4⟩ := hG
   have hni : c.dea ≠ some i := by
     intro h; have := (d1 i).2 h; simp [h1] at this
   have hpc2 : pc ≠ .mDea .deaB := by intro h; simp [h, GT.direct] at h2
@@ -105,7 +111,7 @@ macro "gu_solve" : tactic =>
 theorem inDea_of_late (w : GW) (h : w.inDeaLate = true) : w.inDea = true := by
   cases w <;> simp_all [GW.inDeaLate, GW.inDea]
 
-theorem ginv_t (c : Cfg) (i : Nat) (hB : Base c) (hG : GInv c) (hg : okStep c (i + 1) = true) : GInv (tStep c i) := by
+theorem ginv_t (c : Cfg) (i : Nat) (hB : Base c) (hG : GInv c) : GInv (tStep c i) := by
   have hG' := hG
   have hq := hB.quiet
   unfold tStep
@@ -121,7 +127,7 @@ theorem ginv_t (c : Cfg) (i : Nat) (hB : Base c) (hG : GInv c) (hg : okStep c (i
       · have := hB.others i hi; simp [hpc, GT.creating] at this
     have hq2 := hq hpd
     refine ginv_setT _ i _ ?_ (by simp [emit, hpc, GT.direct]) (by simp [GT.direct])
-    obtain ⟨d1, ex, recvBy, postBy, k, kb1, kb2, early0, ok2, ok3, ok4⟩ := hG
+    obtain ⟨d1, ex, t1, t2, recvBy, postBy, k, kb1, kb2, early0, ok2, ok3, ok4⟩ := hG
     have hp0 := early0 hpd
     gu_solve
   · -- aE
@@ -132,7 +138,7 @@ theorem ginv_t (c : Cfg) (i : Nat) (hB : Base c) (hG : GInv c) (hg : okStep c (i
       · have := hB.others i hi; simp [hpc, GT.creating] at this
     have hq2 := hq hpd
     refine ginv_setT _ i _ ?_ (by simp [emit, hpc, GT.direct]) (by simp [GT.direct])
-    obtain ⟨d1, ex, recvBy, postBy, k, kb1, kb2, early0, ok2, ok3, ok4⟩ := hG
+    obtain ⟨d1, ex, t1, t2, recvBy, postBy, k, kb1, kb2, early0, ok2, ok3, ok4⟩ := hG
     have hp0 := early0 hpd
     gu_solve
   · -- sEnsure
@@ -148,34 +154,50 @@ theorem ginv_t (c : Cfg) (i : Nat) (hB : Base c) (hG : GInv c) (hg : okStep c (i
     rename_i p hpc
     split
     · refine ginv_setT _ i _ ?_ (by simp [hpc, GT.direct]) (by simp [GT.direct])
-      obtain ⟨d1, ex, recvBy, postBy, k, kb1, kb2, early0, ok2, ok3, ok4⟩ := hG
+      obtain ⟨d1, ex, t1, t2, recvBy, postBy, k, kb1, kb2, early0, ok2, ok3, ok4⟩ := hG
       constructor <;> (try assumption) <;>
         simp_all [msgOf, lateDirect, trySchedule] <;> (first | assumption | exact kb1 _ | exact kb2 _ | skip)
     · exact ginv_setT c i _ hG (by simp [hpc, GT.direct]) (by simp [GT.direct])
   · -- mCheck
     rename_i hpc
-    simp only [okStep, hpc] at hg
     split
     · exact ginv_setT c i _ hG (by simp [hpc, GT.direct]) (by simp [GT.direct])
-    · rename_i hact
-      split
+    · split
       · -- reentrancy-capable: the passivation pill goes through the mailbox
         refine ginv_setT _ i _ ?_ (by simp [hpc, GT.direct]) (by simp [GT.direct])
-        obtain ⟨d1, ex, recvBy, postBy, k, kb1, kb2, early0, ok2, ok3, ok4⟩ := hG
+        obtain ⟨d1, ex, t1, t2, recvBy, postBy, k, kb1, kb2, early0, ok2, ok3, ok4⟩ := hG
         constructor <;> (try assumption) <;>
           simp_all [lateDirect, trySchedule] <;> (first | assumption | exact kb1 _ | exact kb2 _ | skip)
-      · -- direct deactivation begins: the guard gives an idle worker, an empty mailbox, no other direct one
-        rename_i hre
-        obtain ⟨d1, ex, recvBy, postBy, k, kb1, kb2, early0, ok2, ok3, ok4⟩ := hG
-        simp only [hre, Bool.false_or, Bool.and_eq_true, beq_iff_eq, Option.isNone_iff_eq_none] at hg
-        obtain ⟨hw, hdn⟩ := hg
-        have hnd := no_direct_of_dea_none c d1 hdn
-        constructor <;> (try intro j) <;> (try (by_cases hj : j = i)) <;> (try assumption) <;>
+      · exact ginv_setT c i _ hG (by simp [hpc, GT.direct]) (by simp [GT.direct])
+  · -- mTake: try to own the dispatch turn
+    rename_i hpc
+    split
+    · rename_i hs
+      -- the dispatch state is Idle: no turn in progress, no other direct deactivation
+      obtain ⟨d1, ex, t1, t2, recvBy, postBy, k, kb1, kb2, early0, ok2, ok3, ok4⟩ := hG
+      have hw : c.w = .idle := by
+        apply Classical.byContradiction; intro hn; have := t2 hn; simp [hs] at this
+      have hdn : c.dea = none := by
+        cases hd : c.dea with
+        | none => rfl
+        | some j => have := t1 (by simp [hd]); simp [hs] at this
+      have hnd := no_direct_of_dea_none c d1 hdn
+      split
+      · -- re-test failed: the turn is released at once
+        refine ginv_setT _ i _ ?_ (by simp [hpc, GT.direct]) (by simp [GT.direct])
+        constructor <;> (try assumption) <;>
+          simp_all [lateDirect] <;> (first | assumption | exact kb1 _ | exact kb2 _ | skip)
+      · constructor <;> (try intro j) <;> (try (by_cases hj : j = i)) <;> (try assumption) <;>
           simp_all [setT, lateDirect, GT.direct, GW.inDea, GW.inDeaLate] <;>
           (first | assumption | omega | skip)
+    · -- not Idle: the pill route
+      refine ginv_setT _ i _ ?_ (by simp [hpc, GT.direct]) (by simp [GT.direct])
+      obtain ⟨d1, ex, t1, t2, recvBy, postBy, k, kb1, kb2, early0, ok2, ok3, ok4⟩ := hG
+      constructor <;> (try assumption) <;>
+        simp_all [lateDirect, trySchedule] <;> (first | assumption | exact kb1 _ | exact kb2 _ | skip)
   · -- mDea deaB
     rename_i hpc
-    obtain ⟨d1, ex, recvBy, postBy, k, kb1, kb2, early0, ok2, ok3, ok4⟩ := hG
+    obtain ⟨d1, ex, t1, t2, recvBy, postBy, k, kb1, kb2, early0, ok2, ok3, ok4⟩ := hG
     have hd : c.dea = some i := (d1 i).1 (by simp [hpc, GT.direct])
     have hw : c.w = .idle := by
       apply Classical.byContradiction; intro hn; have := ex hn; simp [hd] at this
@@ -190,7 +212,7 @@ theorem ginv_t (c : Cfg) (i : Nat) (hB : Base c) (hG : GInv c) (hg : okStep c (i
       (first | assumption | omega | skip)
   · -- mDea deaE
     rename_i hpc
-    obtain ⟨d1, ex, recvBy, postBy, k, kb1, kb2, early0, ok2, ok3, ok4⟩ := hG
+    obtain ⟨d1, ex, t1, t2, recvBy, postBy, k, kb1, kb2, early0, ok2, ok3, ok4⟩ := hG
     have hd : c.dea = some i := (d1 i).1 (by simp [hpc, GT.direct])
     have hw : c.w = .idle := by
       apply Classical.byContradiction; intro hn; have := ex hn; simp [hd] at this
@@ -199,7 +221,7 @@ theorem ginv_t (c : Cfg) (i : Nat) (hB : Base c) (hG : GInv c) (hg : okStep c (i
       (first | assumption | exact kb2 _ | omega | skip)
   · -- mDea fin
     rename_i hpc
-    obtain ⟨d1, ex, recvBy, postBy, k, kb1, kb2, early0, ok2, ok3, ok4⟩ := hG
+    obtain ⟨d1, ex, t1, t2, recvBy, postBy, k, kb1, kb2, early0, ok2, ok3, ok4⟩ := hG
     have hd : c.dea = some i := (d1 i).1 (by simp [hpc, GT.direct])
     have hw : c.w = .idle := by
       apply Classical.byContradiction; intro hn; have := ex hn; simp [hd] at this
@@ -212,9 +234,9 @@ theorem ginv_t (c : Cfg) (i : Nat) (hB : Base c) (hG : GInv c) (hg : okStep c (i
       simp_all [finish, setT, lateDirect, GT.direct, GW.inDea, GW.inDeaLate, tidOf] <;>
       (first | assumption | omega | (intro h; have := hothers _ hj; simp [h] at this) | skip)
 
-theorem ginv_step (c : Cfg) (a : Nat) (hB : Base c) (hG : GInv c) (hg : okStep c a = true) : GInv (step c a) := by
+theorem ginv_step (c : Cfg) (a : Nat) (hB : Base c) (hG : GInv c) : GInv (step c a) := by
   cases a with
-  | zero => exact ginv_w c hB hG hg
-  | succ k => exact ginv_t c k hB hG hg
+  | zero => exact ginv_w c hB hG
+  | succ k => exact ginv_t c k hB hG
 
 end GoaktVerif.C31
